@@ -75,6 +75,8 @@ type tfun struct {
 	mutates  bool
 	text     string
 	skipped  []string
+	inputs   map[string]string
+	capture  bool
 	view     string   // suffix of the structure name: a separate record of the receiver's fields for this group of functions
 	opaque   bool     // argument-less interface-method calls become parameters
 	onames   []string // those parameters, in order of first use
@@ -262,6 +264,22 @@ func unify(a, b gty) gty {
 }
 
 func (e *env) expr(x ast.Expr) (string, gty) {
+	if in, ok := e.f.inputs[e.t.p.str(x)]; ok {
+		name, tyS := in[:strings.Index(in, ":")], in[strings.Index(in, ":")+1:]
+		ty := tInt
+		if tyS == "bool" {
+			ty = tBool
+		}
+		found := false
+		for _, n := range e.f.onames {
+			found = found || n == name
+		}
+		if !found {
+			e.f.onames = append(e.f.onames, name)
+			e.f.otypes = append(e.f.otypes, ty)
+		}
+		return name, ty
+	}
 	switch v := x.(type) {
 	case *ast.ParenExpr:
 		return e.expr(v.X)
@@ -483,6 +501,25 @@ func (e *env) call(v *ast.CallExpr) (string, gty) {
 
 // ---- statements
 
+// mutCall: `r.f()` where f is an already translated method of the receiver that changes it and has one result
+func (e *env) mutCall(x ast.Expr) *tfun {
+	call, ok := x.(*ast.CallExpr)
+	if !ok || len(call.Args) != 0 {
+		return nil
+	}
+	sel, ok := call.Fun.(*ast.SelectorExpr)
+	if !ok {
+		return nil
+	}
+	if id, ok := sel.X.(*ast.Ident); !ok || id.Name != e.rname {
+		return nil
+	}
+	if cal, ok := e.t.funs[e.f.recv+"."+sel.Sel.Name]; ok && cal.mutates && len(cal.resTypes) == 1 {
+		return cal
+	}
+	return nil
+}
+
 func (e *env) skippable(s ast.Stmt) bool {
 	var call *ast.CallExpr
 	switch v := s.(type) {
@@ -498,6 +535,9 @@ func (e *env) skippable(s ast.Stmt) bool {
 		return false
 	}
 	txt := e.t.p.str(call.Fun)
+	if e.f.capture && (strings.HasSuffix(txt, ".Emit") || strings.HasSuffix(txt, ".emit")) {
+		return false
+	}
 	for _, suf := range []string{".Lock", ".Unlock", ".RLock", ".RUnlock", ".Emit", ".emit"} {
 		if strings.HasSuffix(txt, suf) {
 			e.f.skipped = append(e.f.skipped, txt)
@@ -533,6 +573,9 @@ func (e *env) assigned(stmts []ast.Stmt, out map[string]bool) {
 				txt := e.t.p.str(v.Fun)
 				if txt == "atomic.StoreUint32" || txt == "atomic.AddUint32" {
 					out[e.rname] = true
+				}
+				if e.f.capture && (strings.HasSuffix(txt, ".Emit") || strings.HasSuffix(txt, ".emit")) {
+					out["ev"] = true
 				}
 				if sel, ok := v.Fun.(*ast.SelectorExpr); ok {
 					if id, ok := sel.X.(*ast.Ident); ok && id.Name == e.rname {
@@ -680,6 +723,12 @@ func (e *env) block(stmts []ast.Stmt, fall string, ind string) string {
 				e.fail("multi-assignment")
 			}
 			if v.Tok == token.DEFINE {
+				if cal := e.mutCall(v.Rhs[0]); cal != nil {
+					id := v.Lhs[0].(*ast.Ident)
+					ln := e.setVar(id.Name, cal.resTypes[0])
+					sb.WriteString(fmt.Sprintf("%slet (%s, %s) := %s %s\n", ind, e.rname, ln, cal.lean, e.rname))
+					continue
+				}
 				x, ty := e.rhs(v.Rhs[0])
 				if ty == tUntyped {
 					ty = tInt
@@ -724,6 +773,19 @@ func (e *env) block(stmts []ast.Stmt, fall string, ind string) string {
 				e.fail("expression statement")
 			}
 			txt := e.t.p.str(call.Fun)
+			if e.f.capture && (strings.HasSuffix(txt, ".Emit") || strings.HasSuffix(txt, ".emit")) && len(call.Args) >= 3 {
+				msg := ""
+				switch a := call.Args[2].(type) {
+				case *ast.Ident:
+					msg = a.Name
+				case *ast.BasicLit:
+					if a.Value != `""` {
+						msg = "text"
+					}
+				}
+				sb.WriteString(fmt.Sprintf("%slet ev := %q\n", ind, e.t.p.str(call.Args[0])+"|"+msg))
+				continue
+			}
 			if txt == "atomic.AddUint32" {
 				f, ok := e.recvField(call.Args[0])
 				if !ok {
@@ -874,8 +936,15 @@ func (e *env) ifStmt(v *ast.IfStmt, rest []ast.Stmt, fall string, ind string) st
 	if v.Init != nil {
 		e.fail("if with an init statement")
 	}
-	c, _ := e.expr(v.Cond)
 	var sb strings.Builder
+	var c string
+	if cal := e.mutCall(v.Cond); cal != nil && cal.resTypes[0] == tBool {
+		// `if r.f() {` where f changes the receiver: the call first, then the test of its result
+		sb.WriteString(fmt.Sprintf("%slet (%s, cond_) := %s %s\n", ind, e.rname, cal.lean, e.rname))
+		c = "cond_"
+	} else {
+		c, _ = e.expr(v.Cond)
+	}
 	if e.ifReturns(v) {
 		// a branch returns: the continuation is duplicated into both branches
 		save := e.snapshot()
@@ -1014,7 +1083,10 @@ type tspec struct {
 	sliceN                 int
 	sliceOut               []string
 	view                   string
-	until                  string // translate only the statements before the first call statement of this function
+	sliceAt                string            // like sliceFrom, but the first statement (anywhere in the body, also inside closures and select arms) whose text starts with this
+	inputs                 map[string]string // source text of an expression -> "name:type" (int|bool): an input of the translated code
+	captureEmit            bool              // an Emit / emit call assigns its event (and message constant) to the string variable `ev`
+	until                  string            // translate only the statements before the first call statement of this function
 	opaque                 bool
 }
 
@@ -1027,7 +1099,7 @@ func (t *translator) translate(sp tspec) (res *tfun, why string) {
 	if st == nil {
 		return nil, "receiver struct not found"
 	}
-	f := &tfun{lean: sp.lean, decl: fd, recv: sp.recv, st: st, opaque: sp.opaque, view: sp.view}
+	f := &tfun{lean: sp.lean, decl: fd, recv: sp.recv, st: st, opaque: sp.opaque, view: sp.view, inputs: sp.inputs, capture: sp.captureEmit}
 	e := &env{t: t, f: f, vars: map[string]gty{}, lnames: map[string]string{}}
 	e.rname = fd.Recv.List[0].Names[0].Name
 	defer func() {
@@ -1040,6 +1112,9 @@ func (t *translator) translate(sp tspec) (res *tfun, why string) {
 		}
 	}()
 	for _, p := range fd.Type.Params.List {
+		if sp.sliceAt != "" {
+			break // a slice from deep inside the body: what it reads is named by `inputs`
+		}
 		ty := typeOfExpr(p.Type)
 		for _, nm := range p.Names {
 			if ty == tUnknown || ty == tF64 {
@@ -1073,7 +1148,39 @@ func (t *translator) translate(sp tspec) (res *tfun, why string) {
 		}
 		stmts = stmts[:cut]
 	}
-	if sp.sliceFrom != "" {
+	if sp.sliceAt != "" {
+		var found []ast.Stmt
+		ast.Inspect(fd.Body, func(n ast.Node) bool {
+			if found != nil {
+				return false
+			}
+			var list []ast.Stmt
+			switch b := n.(type) {
+			case *ast.BlockStmt:
+				list = b.List
+			case *ast.CommClause:
+				list = b.Body
+			case *ast.CaseClause:
+				list = b.Body
+			}
+			for i, st := range list {
+				if strings.HasPrefix(t.p.str(st), sp.sliceAt) && i+sp.sliceN <= len(list) {
+					found = list[i : i+sp.sliceN]
+					return false
+				}
+			}
+			return true
+		})
+		if found == nil {
+			return nil, "slice start not found"
+		}
+		stmts = found
+		f.params, f.ptypes = nil, nil
+		sp.sliceFrom = sp.sliceAt
+		if sp.captureEmit {
+			e.setVar("ev", tErr)
+		}
+	} else if sp.sliceFrom != "" {
 		start := -1
 		for i, s := range stmts {
 			if as, ok := s.(*ast.AssignStmt); ok && as.Tok == token.DEFINE && len(as.Lhs) == 1 && t.p.str(as.Lhs[0]) == sp.sliceFrom {
@@ -1273,6 +1380,10 @@ func transAll(v1, v2 *pkg) string {
 	t1.emit([]tspec{
 		{file: "batcher.go", recv: "Batcher", name: "incTarget", lean: "v1_incTarget"},
 		{file: "batcher.go", recv: "Batcher", name: "trySetTargetToZero", lean: "v1_trySetTargetToZero"},
+		{file: "batcher.go", recv: "Batcher", name: "Start", lean: "v1_auditArm", sliceAt: "if len(r.buffer) < 1 && time.Since(lastFlushWithRecords)", sliceN: 1, sliceOut: []string{"ev"}, captureEmit: true,
+			inputs: map[string]string{"len(r.buffer)": "bufLen:int", "time.Since(lastFlushWithRecords)": "sinceLast:int", "r.maxOperationTime": "mot:int"}},
+		{file: "batcher.go", recv: "Batcher", name: "Start", lean: "v1_effMot", sliceAt: "maxOperationTime := r.maxOperationTime", sliceN: 2, sliceOut: []string{"maxOperationTime"},
+			inputs: map[string]string{"r.maxOperationTime": "mot:int", "watcher.MaxOperationTime()": "wMot:int"}},
 		{file: "batcher.go", recv: "Batcher", name: "applyDefaults", lean: "v1_applyDefaults", view: "_cfg"},
 		{file: "batcher.go", recv: "Batcher", name: "Enqueue", lean: "v1_enqueueAdmit", until: "r.incTarget", opaque: true, view: "_cfg"},
 		{file: "operation.go", recv: "Operation", name: "MakeAttempt", lean: "v1_op_MakeAttempt"},
@@ -1294,6 +1405,10 @@ func transAll(v1, v2 *pkg) string {
 	t2.emit([]tspec{
 		{file: "batcher.go", recv: "batcher", name: "incTarget", lean: "v2_incTarget"},
 		{file: "batcher.go", recv: "batcher", name: "confirmTargetIsZero", lean: "v2_confirmTargetIsZero"},
+		{file: "batcher.go", recv: "batcher", name: "Start", lean: "v2_auditArm", sliceAt: "if r.buffer.size() == 0 && time.Since(r.lastFlushWithRecords)", sliceN: 1, sliceOut: []string{"ev"}, captureEmit: true,
+			inputs: map[string]string{"r.buffer.size()": "bufSize:int", "time.Since(r.lastFlushWithRecords)": "sinceLast:int", "r.maxOperationTime": "mot:int", "r.confirmInflightIsZero()": "inflightIsZero:bool"}},
+		{file: "batcher.go", recv: "batcher", name: "processBatch", lean: "v2_effMot", sliceAt: "maxOperationTime := r.maxOperationTime", sliceN: 2, sliceOut: []string{"maxOperationTime"},
+			inputs: map[string]string{"r.maxOperationTime": "mot:int", "watcher.MaxOperationTime()": "wMot:int"}},
 		{file: "batcher.go", recv: "batcher", name: "applyDefaults", lean: "v2_applyDefaults", view: "_cfg"},
 		{file: "batcher.go", recv: "batcher", name: "Enqueue", lean: "v2_enqueueAdmit", until: "r.incTarget", opaque: true, view: "_cfg"},
 		{file: "operation.go", recv: "operation", name: "MakeAttempt", lean: "v2_op_MakeAttempt"},
